@@ -154,7 +154,7 @@ class Subs:
                     self.ctx.raise_('IndexError', node, env, 'index %d of list with length %s..%s' % (c, base.lo, base.hi))
             else:
                 self.ctx.raise_('IndexError', node, env, 'index %r of list' % (idx,))
-            return self.elem_of(base, env)
+            return self.instance_of(self.elem_of(base, env), env) if isinstance(base, ListOf) else self.elem_of(base, env)
         if isinstance(base, RegDict):
             key = S.const_value(env, idx) if isinstance(idx, Str) else None
             if key is not None and ('haskey', base.rid, key) in env.facts:
@@ -333,7 +333,7 @@ class Subs:
         elem, lo, hi = data
         if not (lo == n and hi == n):
             self.ctx.raise_('ValueError', node, env, 'unpack sequence of length %s..%s into %d targets' % (lo, hi, n))
-        return [elem] * n
+        return [self.instance_of(elem, env) for _ in range(n)]
 
     # ---------------------------------------------------------- comprehensions
     def comp_values(self, elt_nodes, generators, env, node):
